@@ -490,6 +490,13 @@ def units(prop, tier):
         for pre, mod, c in b2s:
             u('hash.blake2.%s.frames' % pre, [c + '.update', c + '.verify#bytearray'])
         u('hash.poly1305.frames', [PM + '.update', PM + '.verify#bytearray'])
+        # caller-owned KEYS are inputs too: the constructors of the keyed objects take `buffer` keys (bytes | bytearray | memoryview) and
+        # their frames exclude them (seeded change C19-hmac-init-extends-bytearray-key was first missed: these ran under C03 only)
+        u('hash.hmac.init', [HMAC + '.__init__'])
+        u('hash.hmac.new', [H + 'HMAC.new'])
+        for pre, mod, c in b2s:
+            u('hash.blake2.%s.init' % pre, [c + '.__init__'])
+        u('hash.poly1305.init', [PM + '.__init__'])
     return us
 
 
